@@ -44,6 +44,47 @@ fn receiver_reference(
     }
 }
 
+/// Replace every lifetime that is elided in a method's output (`&T`, `'_`) by a named
+/// lifetime, which is returned if there was any.
+fn name_elided_output_lifetimes(output: &mut syn::ReturnType) -> Option<syn::Lifetime> {
+    struct Namer {
+        lifetime: syn::Lifetime,
+        found: bool,
+    }
+
+    impl syn::visit_mut::VisitMut for Namer {
+        fn visit_type_reference_mut(&mut self, reference: &mut syn::TypeReference) {
+            if reference.lifetime.is_none() {
+                reference.lifetime = Some(self.lifetime.clone());
+                self.found = true;
+            }
+            syn::visit_mut::visit_type_reference_mut(self, reference);
+        }
+
+        fn visit_lifetime_mut(&mut self, lifetime: &mut syn::Lifetime) {
+            if lifetime.ident == "_" {
+                *lifetime = self.lifetime.clone();
+                self.found = true;
+            }
+        }
+
+        // `fn(&T) -> &U` and `Fn(&T) -> &U` have an elision scope of their own
+        fn visit_type_bare_fn_mut(&mut self, _: &mut syn::TypeBareFn) {}
+        fn visit_parenthesized_generic_arguments_mut(
+            &mut self,
+            _: &mut syn::ParenthesizedGenericArguments,
+        ) {
+        }
+    }
+
+    let mut namer = Namer {
+        lifetime: syn::Lifetime::new("'entrait_self", Span::call_site()),
+        found: false,
+    };
+    syn::visit_mut::VisitMut::visit_return_type_mut(&mut namer, output);
+    namer.found.then_some(namer.lifetime)
+}
+
 #[derive(Clone, Copy)]
 struct ContainsAsync(bool);
 
@@ -183,9 +224,25 @@ fn gen_impl_delegation_trait_defs(
                     continue;
                 }
 
+                let sig = &mut trait_fn.entrait_sig.sig;
+                let mut self_lifetime = None;
+                if let Some(syn::FnArg::Receiver(receiver)) = sig.inputs.first() {
+                    if let Some((_, None)) = receiver_reference(receiver) {
+                        // Lifetimes elided in the output are those of `&self`. `__impl` is an
+                        // ordinary parameter, for which that elision rule does not exist.
+                        self_lifetime = name_elided_output_lifetimes(&mut sig.output);
+                    }
+                }
+                if let Some(lifetime) = &self_lifetime {
+                    sig.generics
+                        .params
+                        .insert(0, syn::parse_quote! { #lifetime });
+                }
+
                 if let Some(first_arg) = trait_fn.entrait_sig.sig.inputs.first_mut() {
                     if let syn::FnArg::Receiver(receiver) = first_arg {
                         *first_arg = if let Some((and, lifetime)) = receiver_reference(receiver) {
+                            let lifetime = lifetime.or(self_lifetime);
                             syn::parse_quote! {
                                 __impl: #and #lifetime ::#entrait::Impl<EntraitT>
                             }
